@@ -19,10 +19,10 @@ inductive StepForm (c c' : Core) : Prop
       c'.auth = c.auth → StepForm c c'
   | answered (env : Env) (l x : Bytes) : c.authenticated = false → c.disconnecting = false →
       c'.trace = c.trace ++ [Ev.recv l, Ev.send x] → c'.disconnecting = false → c'.authenticated = false →
-      Handled env c.auth l c'.auth [x] → StepForm c c'
+      c'.auth.authenticated = false → Handled env c.auth l c'.auth [x] → StepForm c c'
   | finished (env : Env) (l x : Bytes) : c.authenticated = false → c.disconnecting = false →
       c'.trace = c.trace ++ [Ev.recv l, Ev.send x, Ev.authenticated] → c'.disconnecting = false →
-      c'.authenticated = true → Handled env c.auth l c'.auth [x] → StepForm c c'
+      c'.authenticated = true → c'.auth.authenticated = true → Handled env c.auth l c'.auth [x] → StepForm c c'
 
 theorem Core.step_form (c : Core) (s : Step) : StepForm c (c.step s) := by
   cases s with
@@ -51,9 +51,9 @@ theorem Core.step_form (c : Core) (s : Step) : StepForm c (c.step s) := by
             obtain ⟨x, rfl⟩ := handled_one_reply H
             split
             · rename_i hau
-              exact .finished env l x ha hd (by simp) hd rfl H
+              exact .finished env l x ha hd (by simp) hd rfl hau H
             · rename_i hau
-              exact .answered env l x ha hd (by simp) hd ha H
+              exact .answered env l x ha hd (by simp) hd ha (by simpa using hau) H
 
 /-- Induction principle: a property of cores that holds initially and is kept by every step form
 holds after every run. -/
@@ -138,7 +138,7 @@ theorem InvT.step {c c' : Core} (h : InvT c) (f : StepForm c c') : InvT c' := by
     · intro _
       rw [ht]
       simpa using h.notAuth ha
-  | answered env l x ha hd ht hd' ha' _ =>
+  | answered env l x ha hd ht hd' ha' _ _ =>
     refine ⟨?_, ?_, ?_, ?_, ?_⟩
     · intro pre l' post heq
       rw [ht] at heq
@@ -164,7 +164,7 @@ theorem InvT.step {c c' : Core} (h : InvT c) (f : StepForm c c') : InvT c' := by
     · intro _
       rw [ht]
       simpa using h.notAuth ha
-  | finished env l x ha hd ht hd' ha' _ =>
+  | finished env l x ha hd ht hd' ha' _ _ =>
     refine ⟨?_, ?_, ?_, ?_, by simp [ha']⟩
     · intro pre l' post heq
       rw [ht] at heq
@@ -188,5 +188,140 @@ theorem InvT.step {c c' : Core} (h : InvT c) (f : StepForm c c') : InvT c' := by
       · exact absurd (by rw [h1]; simp) (h.notAuth ha)
       · rcases q with _ | ⟨q1, _ | ⟨q2, _ | ⟨q3, _ | ⟨q4, q⟩⟩⟩⟩ <;> simp at h2
         exact h2.2.2
+
+theorem InvT.init (pref : List Bytes) (unix : Bool) (env : Env) :
+    InvT (connectionMade pref unix env).core := by
+  unfold connectionMade authTryNextMethod
+  cases pref with
+  | nil =>
+    refine ⟨?_, ?_, by simp [Proto.core, Proto.close], ?_, by simp [Proto.core, Proto.close]⟩
+    · intro pre l post heq
+      have h2 : [Ev.nul, Ev.close] = pre ++ Ev.recv l :: post := heq
+      rcases pre with _ | ⟨q1, _ | ⟨q2, q⟩⟩ <;> simp at h2
+    · intro pre post heq
+      have h2 : [Ev.nul, Ev.close] = pre ++ Ev.close :: post := heq
+      rcases pre with _ | ⟨q1, _ | ⟨q2, q⟩⟩ <;> simp at h2
+      obtain ⟨-, rfl⟩ := h2; simp
+    · intro pre post heq
+      have h2 : [Ev.nul, Ev.close] = pre ++ Ev.authenticated :: post := heq
+      rcases pre with _ | ⟨q1, _ | ⟨q2, q⟩⟩ <;> simp at h2
+  | cons m rest =>
+    refine ⟨?_, ?_, by simp [Proto.core], ?_, by simp [Proto.core]⟩
+    · intro pre l post heq
+      have h2 : [Ev.nul, Ev.send (authLine env m)] = pre ++ Ev.recv l :: post := heq
+      rcases pre with _ | ⟨q1, _ | ⟨q2, q⟩⟩ <;> simp at h2
+    · intro pre post heq
+      have h2 : [Ev.nul, Ev.send (authLine env m)] = pre ++ Ev.close :: post := heq
+      rcases pre with _ | ⟨q1, _ | ⟨q2, q⟩⟩ <;> simp at h2
+    · intro pre post heq
+      have h2 : [Ev.nul, Ev.send (authLine env m)] = pre ++ Ev.authenticated :: post := heq
+      rcases pre with _ | ⟨q1, _ | ⟨q2, q⟩⟩ <;> simp at h2
+
+theorem invT_clientRun (pref : List Bytes) (unix : Bool) (envAt : Nat → Env) (chunks : List Bytes) :
+    InvT (clientRun pref unix envAt chunks).core := by
+  obtain ⟨steps, hs⟩ := clientRun_core pref unix envAt chunks
+  rw [hs]
+  exact Core.run_induct InvT steps _ (InvT.init pref unix (envAt 0)) (fun _ _ h f => h.step f)
+
+/-! ### The AUTH lines follow the preference list -/
+
+theorem authLines_append (a b : List Ev) : authLines (a ++ b) = authLines a ++ authLines b := by
+  induction a with
+  | nil => rfl
+  | cons e t ih =>
+    cases e <;> simp [authLines, ih]
+    split <;> simp
+
+theorem authLine_isAuth (env : Env) (m : Bytes) : (b!"AUTH ").isPrefixOf (authLine env m) = true := by
+  unfold authLine
+  split
+  · simp
+  · split <;> simp
+
+theorem authLine_isOffer (env : Env) (m : Bytes) : IsOfferOf (authLine env m) m := by
+  unfold authLine
+  split
+  · exact Or.inr ⟨_, rfl⟩
+  · split
+    · exact Or.inr ⟨_, rfl⟩
+    · exact Or.inl rfl
+
+theorem OfferedInOrder.snoc {ls ms : List Bytes} {l m : Bytes} (h : OfferedInOrder ls ms)
+    (hl : IsOfferOf l m) : OfferedInOrder (ls ++ [l]) (ms ++ [m]) := by
+  induction h with
+  | nil => exact .cons hl .nil
+  | cons h1 _ ih => exact .cons h1 ih
+
+structure InvM (pref : List Bytes) (c : Core) : Prop where
+  ex : ∃ k, k ≤ pref.length ∧ c.auth.authOrder = pref.drop k ∧
+    OfferedInOrder (authLines c.trace) (pref.take k)
+
+theorem InvM.handled {pref : List Bytes} {c : Core} (h : InvM pref c) {env : Env} {l x : Bytes} {a' : Auth}
+    (H : Handled env c.auth l a' [x]) (tail : List Ev) (htail : authLines tail = []) :
+    ∃ k, k ≤ pref.length ∧ a'.authOrder = pref.drop k ∧
+      OfferedInOrder (authLines (c.trace ++ [Ev.recv l, Ev.send x] ++ tail)) (pref.take k) := by
+  obtain ⟨k, hk, ho, hf⟩ := h.ex
+  rw [authLines_append, authLines_append, htail, List.append_nil]
+  cases H with
+  | next m rest hc hm =>
+    rw [ho] at hm
+    have hlt : k < pref.length := by
+      rcases Nat.lt_or_ge k pref.length with hh | hh
+      · exact hh
+      · rw [List.drop_eq_nil_of_le hh] at hm
+        simp at hm
+    rw [List.drop_eq_getElem_cons hlt] at hm
+    simp only [List.cons.injEq] at hm
+    obtain ⟨hm1, hm2⟩ := hm
+    refine ⟨k + 1, by omega, hm2.symm, ?_⟩
+    simp only [authLines, authLine_isAuth, if_true]
+    rw [List.take_succ_eq_append_getElem hlt, hm1]
+    exact hf.snoc (authLine_isOffer env m)
+  | okNegotiate g hok hu => exact ⟨k, hk, ho, by simpa [authLines, lNEGOTIATE] using hf⟩
+  | data line hc hl =>
+    refine ⟨k, hk, ho, ?_⟩
+    rcases hl with rfl | rfl | ⟨y, rfl⟩ | ⟨y, rfl⟩ <;> simpa [authLines, lDATA, lCANCEL] using hf
+  | okBegin g hok hu => exact ⟨k, hk, ho, by simpa [authLines, lBEGIN] using hf⟩
+  | agree hc hu hn => exact ⟨k, hk, ho, by simpa [authLines, lBEGIN] using hf⟩
+  | errorBegin hc hn => exact ⟨k, hk, ho, by simpa [authLines, lBEGIN] using hf⟩
+
+theorem InvM.step {pref : List Bytes} {c c' : Core} (h : InvM pref c) (f : StepForm c c') : InvM pref c' := by
+  obtain ⟨k, hk, ho, hf⟩ := h.ex
+  obtain ⟨a', d', au', t'⟩ := c'
+  cases f with
+  | same e => rw [e]; exact h
+  | closed ha ht hd ha' hau =>
+    simp only at ht hau
+    subst ht hau
+    exact ⟨k, hk, ho, by rw [authLines_append]; simpa [authLines] using hf⟩
+  | failed l ha hd ht hd' ha' hau =>
+    simp only at ht hau
+    subst ht hau
+    exact ⟨k, hk, ho, by rw [authLines_append]; simpa [authLines] using hf⟩
+  | answered env l x ha hd ht hd' ha' haa H =>
+    simp only at ht H
+    subst ht
+    exact ⟨by simpa using h.handled H [] rfl⟩
+  | finished env l x ha hd ht hd' ha' haa H =>
+    simp only at ht H
+    subst ht
+    exact ⟨by simpa using h.handled H [Ev.authenticated] rfl⟩
+
+theorem InvM.init (pref : List Bytes) (unix : Bool) (env : Env) :
+    InvM pref (connectionMade pref unix env).core := by
+  unfold connectionMade authTryNextMethod
+  cases pref with
+  | nil => exact ⟨0, by simp, rfl, by simpa [Proto.core, Proto.close, authLines] using OfferedInOrder.nil⟩
+  | cons m rest =>
+    refine ⟨1, by simp, rfl, ?_⟩
+    simp only [Proto.core, List.map_cons, List.map_nil, List.cons_append, List.nil_append, authLines,
+      authLine_isAuth, if_true, List.take_succ_cons, List.take_zero]
+    exact .cons (authLine_isOffer env m) .nil
+
+theorem invM_clientRun (pref : List Bytes) (unix : Bool) (envAt : Nat → Env) (chunks : List Bytes) :
+    InvM pref (clientRun pref unix envAt chunks).core := by
+  obtain ⟨steps, hs⟩ := clientRun_core pref unix envAt chunks
+  rw [hs]
+  exact Core.run_induct (InvM pref) steps _ (InvM.init pref unix (envAt 0)) (fun _ _ h f => h.step f)
 
 end Txdbus.AuthClient
